@@ -211,10 +211,12 @@ def builder_guards(P, R, xq, b):
     # `continue` statements are empty blocks falling through to the increment: follow them back
     skip_edges = []
     live = b.reachable_blocks()
+    # the regular end of the loop body is where the service is marked as awaited
+    mark_blocks = {t.bid for t in b.stores() if t.ev['k'] == 'store' and holds.outer_field(t.ev['lhs']) == holds.MASK and t.ev.get('op') == '|='}
     for bid in live:
         for e in b.out[bid]:
             if e.dst in inc_blocks and bid not in inc_blocks:
-                passed = any(holds.outer_field(t.ev.get('lhs')) == 'sent_mask' for t in b.block_sites(bid) if t.ev['k'] == 'store')
+                passed = any(bid == m or b.dominates(m, bid) for m in mark_blocks)
                 if passed:
                     continue
                 if e.label == 'fall' and not b.block_sites(bid):
